@@ -7,6 +7,10 @@ from . import PropSpec
 SUBJECTS = ("CountMinSketch", "CountMinSketch", "HeavyHitters", "StreamThreshold")
 
 
+def _salt(key):
+    return key + "#s" if isinstance(key, str) else bytes(key) + b"#s"
+
+
 class C02Sketch(Scenario):
     prop = "C02"
     max_steps = 50
@@ -17,6 +21,8 @@ class C02Sketch(Scenario):
                     # half of the runs stay plain add/remove histories (the fault-free configuration)
                     "extras": rng.chance(1, 2)})
         cfg["neighbour"] = cfg["extras"] and rng.chance(1, 3)
+        # a user subclass whose public hashes() salts every key before handing it on (plain CountMinSketch only)
+        cfg["salted"] = cfg["subject"] == "CountMinSketch" and rng.chance(1, 8)
         return cfg
 
     def gen_step(self, rng):
@@ -48,6 +54,15 @@ class C02Sketch(Scenario):
         self.n_gen = 0
         self.env = structs.Env(self.ctx, cfg, need_fs=False)
         self.sub = structs.ALL_SUBJECTS[cfg["subject"]](self.env, cfg)
+        if cfg.get("salted"):
+            base = self.sub.cls()
+
+            class Salted(base):
+                def hashes(self, key, depth=None):
+                    return super().hashes(_salt(key), depth)
+
+            self.sub.cls = lambda: Salted
+            self.ctx.fault("subclass_overrides_hashes")
         self.o = self.sub.build()
         self.w, self.d = self.o.width, self.o.depth
         self.ever = set()
@@ -56,7 +71,8 @@ class C02Sketch(Scenario):
     def bins_of(self, k):
         b = self.bins.get(k)
         if b is None:
-            hs = common.hashes_of(self.env.hf, self.sub.key(k), self.d)
+            key = self.sub.key(k)
+            hs = common.hashes_of(self.env.hf, _salt(key) if self.cfg.get("salted") else key, self.d)
             b = [hs[i] % self.w for i in range(self.d)]
             self.bins[k] = b
         return b
@@ -83,7 +99,9 @@ class C02Sketch(Scenario):
 
             if sub.total + step["n"] >= 2**31 - 1:
                 return "skip"
-            other = CountMinSketch(width=self.w, depth=self.d, hash_function=self.env.fresh_hf())
+            # (a subject that salts its keys in hashes() is only compatible with its own kind)
+            C2 = sub.cls() if self.cfg.get("salted") else CountMinSketch
+            other = C2(width=self.w, depth=self.d, hash_function=self.env.fresh_hf())
             other.join(o)
             other.add(sub.key(step["k"]), step["n"])
             if step.get("rm"):
